@@ -19,7 +19,7 @@ func init() {
 		Run:      runC15,
 		Examples: true,
 		Meta: core.PropertyMeta{
-			Explanation: "Lockset/ownership discipline for every piece of library state that more than one goroutine root can reach. The shared-state table (inferred from access statistics, every row confirmed by reading, frozen in the checker with a reason) assigns each field one discipline: guarded-by a named mutex (every read under any hold, every write under a write hold; closures and goroutines start with the empty lock state), accessed only through sync/atomic, write-once before publication (every store targets the freshly allocated object in its constructor before the go statement / pool insertion that publishes it, or lies in a listed initialiser whose only callers precede publication), guarded-or-write-once (RawNode.conn), and no-escape for guarded slices/maps (never returned or stored without a copy). For the fields in the table a violated row *is* an unsynchronised pair of accesses that public-API use can overlap. Further rows: Async/Correctable protocols (C02-T6, C11-K6 re-run), operand slices of configuration options are never written (C14-G4 re-run), stream handlers that can send more than once clone the metadata (generated code), the shared request is never written after construction.",
+			Explanation: "Lockset/ownership discipline for every piece of library state that more than one goroutine root can reach. The shared-state table (inferred from access statistics, every row confirmed by reading, frozen in the checker with a reason) assigns each field one discipline: guarded-by a named mutex (every read under any hold, every write under a write hold; closures and goroutines start with the empty lock state), accessed only through sync/atomic, write-once before publication (every store targets the freshly allocated object in its constructor before the go statement / pool insertion that publishes it, or lies in a listed initialiser whose only callers precede publication), guarded-or-write-once (RawNode.conn), and no-escape for guarded slices/maps (never returned or stored without a copy). For the fields in the table a violated row *is* an unsynchronised pair of accesses that public-API use can overlap. Further rows: Async/Correctable protocols (C02-T6, C11-K6 re-run), operand slices of configuration options are never written (C14-G4 re-run), stream handlers that can send more than once clone the metadata (generated code), the shared request is never written after construction. Round 4: the elements of a guarded slice or map are used under the lock its header was read under; only the decode path of the codec may write a message; a package-level variable that is modified under a lock is also read under it.",
 			NotDecided:  "Races inside user handlers/quorum functions, gRPC, protobuf; memory outside the table; orderings established by means the table does not model (none found). A clean table is necessary, not sufficient.",
 			Trusted:     append([]string{"the Go memory model: mutexes, sync/atomic, go statements and channel operations establish happens-before"}, commonTrust...),
 		},
